@@ -97,12 +97,19 @@ class FanOut:
             return False
         if isinstance(lp.coll, CollV) and lp.coll.preds:
             return False
+        containers = {cont for _p, cont, _c, many in spec.TREE if many == "many"}
         it = getattr(lp.node, "iter", None)
         chain = attr_chain(it) if it is not None else None
-        if not chain:
-            return False  # sliced, filtered, conditional or computed iterable
-        last = chain[-1]
-        return any(last == cont for _p, cont, _c, many in spec.TREE if many == "many")
+        if chain and isinstance(it, ast.Attribute):
+            return chain[-1] in containers
+        # the iterable is not written as an attribute chain (a local, a table entry, a parameter): decide by the value it
+        # denotes -- the unfiltered, unsliced container attribute of an object of the tree
+        v = lp.coll
+        path = v.base if isinstance(v, CollV) else (v.tag if isinstance(v, Unk) else None)
+        if path is None:
+            return False
+        m = re.fullmatch(r"[A-Za-z_][\w.]*(\[\*\d+\][\w.]*)*\.(\w+)", path)
+        return bool(m) and m.group(2) in containers
 
 
 def log_append_matcher(ctx):
